@@ -64,6 +64,50 @@ def targeted_scripts(rnd):
     return out
 
 
+def echo_scripts(rnd, work):
+    """The builder's own output fed back as answers: a probing session per version/mode records what is printed before each
+    question; every whitespace token of it, every run of two or more adjacent choices as printed (N/A, N/A/L/P), every hint
+    with and without its parentheses, the whole prompt, and pairs of legal answers glued by separators are then offered at that
+    question (each must be refused unless it is a legal value) before the legal answer."""
+    from common import unesc
+    probes = []
+    for bver, ver in BVER.items():
+        for allm in (False, True):
+            metrics = corpus.ORDER[ver] if allm else corpus.MAND[ver]
+            probes.append({"bver": bver, "all": allm, "no_colors": True, "num": "float", "script": [esc(corpus.VALS[ver][m][0]) for m in metrics]})
+    rec = record_events(probes, work, name="probe", script="interactive.py")
+    out = []
+    for pr, s in zip(probes, rec):
+        ver = BVER[pr["bver"]]
+        metrics = corpus.ORDER[ver] if pr["all"] else corpus.MAND[ver]
+        reads = [e for e in s["events"] if e["ev"] == "Read"]
+        if len(reads) != len(metrics) or s["events"][-1]["ev"] != "Return":
+            continue            # the probing session itself went wrong: the ordinary sessions report that
+        for k, m in enumerate(metrics):
+            legal = set(v.upper() for v in corpus.VALS[ver][m])
+            cands = []
+            prompt, shown = unesc(reads[k]["prompt"]), unesc(reads[k]["shown"])
+            for tok in prompt.split() + shown.split():
+                cands.append(tok)
+                parts = tok.split("/")
+                for a in range(len(parts)):
+                    for b in range(a + 2, len(parts) + 1):
+                        cands.append("/".join(parts[a:b]))
+                cands += [tok + "/", "/" + tok] if tok.upper() in legal else []
+            for hint in shown.split("\n")[-2].split(" | ") if "\n" in shown else []:
+                cands += [hint, hint.replace("(", "").replace(")", "")]
+            cands.append(prompt.strip())
+            vals = corpus.VALS[ver][m]
+            for sep in ("/", " ", ",", "|", "", ";", "\t"):
+                a, b = rnd.choice(vals), rnd.choice(vals)
+                cands += [a + sep + b, (a + sep + b).lower()]
+            cands += [c_.lower() for c_ in cands]
+            cands = [c_ for c_ in dict.fromkeys(cands) if c_.strip() and c_.strip().upper() not in legal]
+            script = [corpus.VALS[ver][x][0] for x in metrics[:k]] + cands + [corpus.VALS[ver][x][0] for x in metrics[k:]]
+            out.append({"bver": pr["bver"], "all": pr["all"], "no_colors": rnd.random() < 0.7, "num": rnd.choice(["int", "float"]), "script": [esc(x) for x in script]})
+    return out
+
+
 def validate(c, sessions, work, check_pattern, name, cfg=None):
     p = os.path.join(work, name + ".json")
     json.dump(sessions, open(p, "w"), separators=(",", ":"))
@@ -108,7 +152,9 @@ def run(prop, tier, seed):
             raise MachineryError("GenInteractive produced no scripts: %s" % (r.error,))
         gen = gen[:want]
         c.tlc_runs.append({"run": "GenInteractive -simulate", "scripts": len(gen), "wall_s": round(r.wall, 1)})
-        items = targeted_scripts(rnd) + [{"bver": g["bver"], "all": g["all"], "no_colors": rnd.random() < 0.5, "num": rnd.choice(["int", "float"]), "script": [esc(a) for a in g["script"]]} for g in gen]
+        echo = echo_scripts(rnd, work)
+        c.extra["sessions_answering_with_the_builders_own_output"] = len(echo)
+        items = targeted_scripts(rnd) + echo + [{"bver": g["bver"], "all": g["all"], "no_colors": rnd.random() < 0.5, "num": rnd.choice(["int", "float"]), "script": [esc(a) for a in g["script"]]} for g in gen]
         for k, it in enumerate(items):          # a third of the sessions write to a stream that can only represent ASCII / Latin-1
             if k % 3 == 1:
                 it["encoding"] = "ascii" if k % 2 else "latin-1"
